@@ -447,6 +447,7 @@ func (v *vc) havocLoc(st *state, l loc) {
 	if l.ref == "" {
 		n := v.fresh(l.heap)
 		v.decl(n, sort)
+		v.heapAxiom(n, l.heap)
 		st.heaps[l.heap] = n
 		return
 	}
